@@ -68,6 +68,9 @@ type c13Case struct {
 	Shape string `json:"shape"`
 	Mask  int    `json:"mask"` // bit i set: i-th key passes
 	Cfg   string `json:"cfg"`  // none, white, black
+	// Empty: 0 none; i+1: the i-th argument is the empty string (as a key it passes a blacklist
+	// and fails a whitelist)
+	Empty int `json:"empty_arg_plus1,omitempty"`
 }
 
 func c13Run(c c13Case) string {
@@ -91,6 +94,10 @@ func c13Run(c c13Case) string {
 			if c.Mask&(1<<uint(ki)) != 0 {
 				name = fmt.Sprintf("p%d", ki)
 			}
+			if c.Empty == i+1 {
+				name = ""
+				pass = c.Cfg != "white"
+			}
 			ki++
 			args = append(args, []byte(name))
 			keepCompanion = pass
@@ -101,6 +108,9 @@ func c13Run(c c13Case) string {
 		} else {
 			// non-key argument; named so that it would be filtered if mistaken for a key
 			a := []byte(fmt.Sprintf("fv%d", i))
+			if c.Empty == i+1 {
+				a = []byte{}
+			}
 			args = append(args, a)
 			isCompanion := c13Ref[c.Cmd].step == 2
 			if !isCompanion || keepCompanion {
@@ -177,14 +187,16 @@ func TestVerif_C13(t *testing.T) {
 			nk := strings.Count(shape, "K")
 			for _, cfg := range []string{"none", "white", "black"} {
 				for mask := 0; mask < 1<<uint(nk); mask++ {
-					c := c13Case{name, shape, mask, cfg}
-					o := c13Run(c)
-					n++
-					ev.Outcome(o)
-					ev.Nontrivial(ev.HashS(fmt.Sprint(c)))
-					ev.State(ev.HashS(fmt.Sprint(c)))
-					if name == "mset" || name == "bitop" {
-						ev.Sample(name, c)
+					for empty := 0; empty <= len(shape); empty++ {
+						c := c13Case{name, shape, mask, cfg, empty}
+						o := c13Run(c)
+						n++
+						ev.Outcome(o)
+						ev.Nontrivial(ev.HashS(fmt.Sprint(c)))
+						ev.State(ev.HashS(fmt.Sprint(c)))
+						if (name == "mset" || name == "bitop") && empty < 2 {
+							ev.Sample(name, c)
+						}
 					}
 				}
 			}
@@ -201,7 +213,7 @@ func TestVerif_C13(t *testing.T) {
 		}
 		if filtered || len(got) != 2 || string(got[0]) != "f0" || string(got[1]) != "f1" {
 			ev.Violate("C13|not-key-addressed-changed", fmt.Sprintf("command %s (not key-addressed) was changed or dropped by the key filter", name),
-				c13Case{name, "vv", 0, "white"})
+				c13Case{name, "vv", 0, "white", 0})
 		}
 	}
 	conf.Options.FilterKeyWhitelist = nil
